@@ -252,6 +252,30 @@ def check(run):
         g = [(q.render(uaw, a), p_) for a, p_ in q.guards_at(uaw, fl.site)]
         kind = 'send' if any(t.endswith('::wait_write)') and p_ for t, p_ in g) else 'recv' if any(t.endswith('::wait_read)') and p_ for t, p_ in g) else None
         if kind is None:
+            # the same dispatch written as switch (w) { case wait_write: ... }: the enclosing case label names the kind
+            # (only when control cannot fall into it from the previous case)
+            lab = None
+            chain = [fl.site] + list(uaw.ancestors(fl.site))
+            for i_, a_ in enumerate(chain):
+                if a_['k'] == 'case' and is_node(a_.get('v')):
+                    lab = q.render(uaw, a_['v'])
+                    break
+                par = chain[i_ + 1] if i_ + 1 < len(chain) else None
+                gpar = chain[i_ + 2] if i_ + 2 < len(chain) else None
+                if par is not None and par['k'] == 'compound' and gpar is not None and gpar['k'] == 'switch':
+                    # a statement of the switch body that follows its case label as a sibling
+                    sib = par.get('ch', [])
+                    idx = next((j for j, s_ in enumerate(sib) if s_ is a_), None)
+                    for s_ in reversed(sib[:idx] if idx is not None else []):
+                        if s_['k'] == 'case' and is_node(s_.get('v')):
+                            lab = q.render(uaw, s_['v'])
+                            break
+                        if s_['k'] == 'default':
+                            break
+                    break
+            if lab:
+                kind = 'send' if lab.endswith('wait_write') else 'recv' if lab.endswith('wait_read') else None
+        if kind is None:
             run.unrecognised('R6-SUPERSEDE', 'udp-wait-kind', UDP + '::async_wait: handler -> ' + fl.dest, uaw.loc(fl.node), 'cannot tell which kind of wait this path serves: ' + str(g))
             continue
         nk += 1
